@@ -131,9 +131,11 @@ func VerifReduce(root *RegexNode) *RegexNode {
 }
 
 // Query functions of CharSet that are unexported or only reachable through MayOverlap.
-func (c *CharSet) VerifEqualsIgnoreNegate(c2 *CharSet) bool      { return c.equals(c2, true) }
-func (c *CharSet) VerifKnownDistinctFrom(c2 *CharSet) bool       { return knownDistinctSets(c, c2) }
-func (c *CharSet) VerifMayOverlapByEnumeration(c2 *CharSet) bool { return mayOverlapByEnumeration(c, c2) }
+func (c *CharSet) VerifEqualsIgnoreNegate(c2 *CharSet) bool { return c.equals(c2, true) }
+func (c *CharSet) VerifKnownDistinctFrom(c2 *CharSet) bool  { return knownDistinctSets(c, c2) }
+func (c *CharSet) VerifMayOverlapByEnumeration(c2 *CharSet) bool {
+	return mayOverlapByEnumeration(c, c2)
+}
 func (c *CharSet) VerifContainsAsciiIgnoreCaseCharacter() (bool, []rune) {
 	return c.containsAsciiIgnoreCaseCharacter()
 }
